@@ -600,6 +600,40 @@ class Tr:
             def mk(node):
                 ast.fix_missing_locations(ast.copy_location(node, s))
                 return node
+            # if A and P(w := E): BODY else: REST   ==   if A: w = E; if P(w): BODY else: REST   else: REST
+            if (isinstance(s, ast.If) and isinstance(s.test, ast.BoolOp) and isinstance(s.test.op, ast.And) and len(s.test.values) == 2
+                    and not any(isinstance(x, ast.NamedExpr) for x in ast.walk(s.test.values[0]))):
+                walrus = [x for x in ast.walk(s.test.values[1]) if isinstance(x, ast.NamedExpr)]
+                if len(walrus) == 1 and isinstance(walrus[0].target, ast.Name):
+                    w = walrus[0]
+
+                    class Unw(ast.NodeTransformer):
+                        def visit_NamedExpr(self, nn):
+                            return ast.copy_location(ast.Name(id=nn.target.id, ctx=ast.Load()), nn)
+                    inner_test = Unw().visit(copy.deepcopy(s.test.values[1]))
+                    bind = mk(ast.Assign(targets=[ast.Name(id=w.target.id, ctx=ast.Store())], value=copy.deepcopy(w.value)))
+                    inner = mk(ast.If(test=inner_test, body=s.body, orelse=copy.deepcopy(s.orelse)))
+                    stmts, changed = [mk(ast.If(test=s.test.values[0], body=[bind, inner], orelse=s.orelse))] + rest, True
+                    continue
+                if walrus:
+                    fail('assignment expressions in this position', s)
+            # x = D.get(k); if x is None: <leaves the block>   ==   if k not in D: <leaves the block>; x = D[k]
+            if (isinstance(s, ast.Assign) and len(s.targets) == 1 and isinstance(s.targets[0], ast.Name) and isinstance(s.value, ast.Call)
+                    and isinstance(s.value.func, ast.Attribute) and s.value.func.attr == 'get' and len(s.value.args) == 1 and not s.value.keywords
+                    and isinstance(s.value.args[0], ast.Name)
+                    and not (isinstance(s.value.func.value, ast.Name) and s.value.func.value.id in self.tables)
+                    and rest and isinstance(rest[0], ast.If) and not rest[0].orelse and self.diverts(rest[0].body)):
+                x, dexp, key, cond = s.targets[0].id, s.value.func.value, s.value.args[0], rest[0]
+                t = cond.test
+                if (isinstance(t, ast.Compare) and len(t.ops) == 1 and isinstance(t.ops[0], ast.Is) and isinstance(t.left, ast.Name) and t.left.id == x
+                        and isinstance(t.comparators[0], ast.Constant) and t.comparators[0].value is None
+                        and not any(isinstance(n2, ast.Name) and n2.id == x for st in cond.body for n2 in ast.walk(st))
+                        and not any(isinstance(n2, (ast.Call, ast.NamedExpr)) for n2 in ast.walk(dexp))):
+                    test = ast.Compare(left=copy.deepcopy(key), ops=[ast.NotIn()], comparators=[copy.deepcopy(dexp)])
+                    look = mk(ast.Assign(targets=[ast.Name(id=x, ctx=ast.Store())],
+                                         value=ast.Subscript(value=copy.deepcopy(dexp), slice=copy.deepcopy(key), ctx=ast.Load())))
+                    stmts, changed = [mk(ast.If(test=test, body=cond.body, orelse=[])), look] + rest[1:], True
+                    continue
             # match NAME: case 'a': .. case 'b': ..   ==   if NAME == 'a': .. elif NAME == 'b': ..
             if isinstance(s, ast.Match):
                 if not isinstance(s.subject, ast.Name):
